@@ -148,6 +148,8 @@ def match(exp, obs, step, rec, prev):
     for k in ("href", "mem", "cnt", "badfree"):
         if obs.get(k) != exp[k]:
             return "%s: expected %s, observed %s" % (k, exp[k], obs.get(k))
+    if exp.get("dblk") == 0 and obs.get("dblk") != 0:
+        return "dblk: the refused call left %s allocation(s) behind" % obs.get("dblk")
     if exp["quiet"] == 0 and obs.get("quiet") != 0:
         return "quiet: nothing is referred to any more but %s allocation(s) remain" % obs.get("quiet")
     return None
@@ -162,6 +164,10 @@ def sig_of(beh, i, why):
     st = beh[i]
     arg = st.get("arg") or {}
     cls = arg.get("via") or arg.get("c") or "-"
+    if arg.get("how") not in (None, "ok"):
+        cls += "," + arg["how"]
+    if arg.get("fail"):
+        cls += ",nofactory"
     key = why.lower() if why in ("Crash", "Hang", "Garbled") else why.split(":")[0].split(" ")[0].lower()
     return "x15:%s:%s:%s:%s" % (kind_of(beh), st["a"], cls, key)
 
@@ -247,12 +253,17 @@ def gen_histories(rng, n, steps):
             if op == "create":
                 c = rng.choice(TOP[k])
                 via = rng.choice(["open", "bind"]) if c == "lib" else "new"
+                hows = {("lib", "open"): ["nolib"], ("lib", "bind"): ["nolib", "nosym", "emptysym", "longsym"],
+                        ("proxy", "new"): ["nolib", "nosym", "emptysym", "longsym", "nofactory", "nofactory"]}.get((c, via), [])
+                how = rng.choice(hows) if hows and rng.random() < 0.3 else "ok"
                 hs = [i for i in range(T_NH) if not m.h[i] or (via == "bind" and m.cls[m.h[i]] == "lib")]
                 need = 3 if c == "proxy" else 1
                 if not hs or m.made + need > T_NOBJ:
                     continue
                 i = rng.choice(hs)
-                beh.append({"a": "create", "arg": {"h": i + 1, "c": c, "via": via}})
+                beh.append({"a": "create", "arg": {"h": i + 1, "c": c, "via": via, "how": how}})
+                if how != "ok":
+                    continue
                 old = m.h[i]
                 o = m.new(c)
                 if c == "proxy":
@@ -350,9 +361,12 @@ def gen_histories(rng, n, steps):
                 i, g = rng.choice(src), rng.choice(dst)
                 a = m.h[i]
                 c = m.cls[a]
-                if m.made + (2 if c == "proxy" else 1) > T_NOBJ:
+                fail = 1 if (c == "proxy" and rng.random() < 0.35) else 0
+                if not fail and m.made + (2 if c == "proxy" else 1) > T_NOBJ:
                     continue
-                beh.append({"a": "clone", "arg": {"h": i + 1, "g": g + 1}})
+                beh.append({"a": "clone", "arg": {"h": i + 1, "g": g + 1, "fail": fail}})
+                if fail:
+                    continue
                 t = m.mem[a][0]
                 can = not t or m.can(t)
                 if c not in CLONABLE or (not can and c != "valmeta"):
